@@ -230,10 +230,12 @@ Proof.
   set (ctl := c0 :: ctl') in *.
   destruct (N.eqb c0 c_hash || has_prefix (bs "//") ctl); [cbn [p_off p_cnt p_err]; repeat split; lia|].
   destruct (mt re_reLoop ncap_reLoop ctl).
-  { destruct (loop_header ctl) as [r|]; [|cbn [p_off p_cnt p_err]; discriminate].
+  { destruct (negb (N.eqb (last ctl 0%N) c_lbrace)); [cbn [p_off p_cnt p_err]; discriminate|].
+    destruct (loop_header ctl) as [r|]; [|cbn [p_off p_cnt p_err]; discriminate].
     nested rec Hrec idtac; cbn [p_off p_cnt p_err]; [discriminate|]. repeat split; try lia. congruence. }
   destruct (mt re_reCondOK ncap_reCondOK ctl).
-  { nested rec Hrec idtac; cbn [p_off p_cnt p_err]; [discriminate|]. repeat split; try lia. congruence. }
+  { destruct (negb (N.eqb (last ctl 0%N) c_lbrace)); [cbn [p_off p_cnt p_err]; discriminate|].
+    nested rec Hrec idtac; cbn [p_off p_cnt p_err]; [discriminate|]. repeat split; try lia. congruence. }
   destruct (mt re_reCond ncap_reCond ctl).
   { destruct (negb (N.eqb (last ctl 0%N) c_lbrace)); [cbn [p_off p_cnt p_err]; discriminate|].
     destruct (mt re_reCondComplex ncap_reCondComplex ctl).
@@ -244,7 +246,8 @@ Proof.
   destruct (mt re_reCondElse ncap_reCondElse ctl).
   { destruct root; cbn [p_off p_cnt p_err]; [repeat split; lia|discriminate]. }
   destruct (sub re_reSwitch ncap_reSwitch ctl).
-  { nested rec Hrec idtac; cbn [p_off p_cnt p_err]; [discriminate|]. repeat split; try lia. congruence. }
+  { destruct (negb (N.eqb (last ctl 0%N) c_lbrace)); [cbn [p_off p_cnt p_err]; discriminate|].
+    nested rec Hrec idtac; cbn [p_off p_cnt p_err]; [discriminate|]. repeat split; try lia. congruence. }
   destruct (sub re_reSwitchCaseHelper ncap_reSwitchCaseHelper ctl); [cbn [p_off p_cnt p_err]; repeat split; lia|].
   destruct (mt re_reSwitchCase ncap_reSwitchCase ctl); [cbn [p_off p_cnt p_err]; repeat split; lia|].
   destruct (mt re_reSwitchDefault ncap_reSwitchDefault ctl); [cbn [p_off p_cnt p_err]; repeat split; lia|].
@@ -264,12 +267,14 @@ Proof.
   set (ctl := c0 :: ctl') in *.
   destruct (N.eqb c0 c_hash || has_prefix (bs "//") ctl); [discriminate|].
   destruct (mt re_reLoop ncap_reLoop ctl).
-  { destruct (loop_header ctl) as [r0|]; [|inversion H; subst; discriminate].
+  { destruct (negb (N.eqb (last ctl 0%N) c_lbrace)); [inversion H; subst; discriminate|].
+    destruct (loop_header ctl) as [r0|]; [|inversion H; subst; discriminate].
     match type of H with context [p_err (rec ?d ?rr ?o ?t ?pp)] =>
       destruct (p_err (rec d rr o t pp)) eqn:E; inversion H; subst; simpl in HF; inversion HF; subst;
       exists d, rr, t, pp; exact E end. }
   destruct (mt re_reCondOK ncap_reCondOK ctl).
-  { match type of H with context [p_err (rec ?d ?rr ?o ?t ?pp)] =>
+  { destruct (negb (N.eqb (last ctl 0%N) c_lbrace)); [inversion H; subst; discriminate|].
+    match type of H with context [p_err (rec ?d ?rr ?o ?t ?pp)] =>
       destruct (p_err (rec d rr o t pp)) eqn:E; inversion H; subst; simpl in HF; inversion HF; subst;
       exists d, rr, t, pp; exact E end. }
   destruct (mt re_reCond ncap_reCond ctl).
@@ -286,7 +291,8 @@ Proof.
   destruct (mt re_reCondElse ncap_reCondElse ctl).
   { destruct root; inversion H; subst; discriminate. }
   destruct (sub re_reSwitch ncap_reSwitch ctl).
-  { match type of H with context [p_err (rec ?d ?rr ?o ?t ?pp)] =>
+  { destruct (negb (N.eqb (last ctl 0%N) c_lbrace)); [inversion H; subst; discriminate|].
+    match type of H with context [p_err (rec ?d ?rr ?o ?t ?pp)] =>
       destruct (p_err (rec d rr o t pp)) eqn:E; inversion H; subst; simpl in HF; inversion HF; subst;
       exists d, rr, t, pp; exact E end. }
   destruct (sub re_reSwitchCaseHelper ncap_reSwitchCaseHelper ctl); [discriminate|].
